@@ -344,7 +344,8 @@ fn check_graph(i: &Input) -> String {
     let cfg = Arc::new(CheckPredicateConfig { collect_all_failures: get(i, "collect_all") == "1" });
     let state = MapState(Default::default());
     match check_and_compute_solution_set_two_pass(&state, set, preds, programs, cfg) {
-        Ok((gas, set)) => format!("result=ok\ngas={gas}\nmutations={}\n", set.solutions[0].state_mutations.len()),
+        Ok((gas, set)) => format!("result=ok\ngas={gas}\nmutations={}\nmutation_list={}\n", set.solutions[0].state_mutations.len(),
+            set.solutions[0].state_mutations.iter().map(fmt_mutation).collect::<Vec<_>>().join(";")),
         Err(e) => format!("result=err\nerr={}\n", format!("{e:?}").replace('\n', " ")),
     }
 }
